@@ -353,3 +353,57 @@ def itemise_call(text, md, code_name):
         ty, kind, rank, intent = actual_type(low, decls)
         items.append(_item(role, ty, kind, rank, intent))
     return items
+
+
+# ------------------------------------------------- PSyIR argument list (call)
+def _describe(expr):
+    '''(ty, kind, rank) of a PSyIR kernel-call argument, from the datatype of
+    the expression KernCallArgList built (symbol type, reduced by the
+    subscripts of an ArrayReference).'''
+    from psyclone.psyir.nodes import ArrayReference, Range
+    from psyclone.psyir.symbols import (ArrayType, ScalarType,
+                                        UnsupportedFortranType)
+    dtype = expr.datatype
+    if isinstance(dtype, UnsupportedFortranType):
+        decl = parse_decls(dtype.declaration)
+        if len(decl) != 1:
+            raise Unsupported("PSyIR declaration " + dtype.declaration)
+        dec = list(decl.values())[0]
+        rank = dec["r"]
+        if isinstance(expr, ArrayReference):
+            if len(expr.indices) != dec["r"]:
+                raise Unsupported("PSyIR subscripts of " + expr.name)
+            rank = sum(1 for i in expr.indices if isinstance(i, Range))
+        return dec["ty"], dec["k"], rank
+    rank = 0
+    if isinstance(dtype, ArrayType):
+        rank = len(dtype.shape)
+    if not isinstance(dtype, (ArrayType, ScalarType)):
+        raise Unsupported("PSyIR datatype " + str(dtype)[:80])
+    ty = {"integer": "integer", "real": "real",
+          "boolean": "logical"}.get(dtype.intrinsic.name.lower())
+    if ty is None:
+        raise Unsupported("PSyIR intrinsic " + dtype.intrinsic.name)
+    prec = dtype.precision
+    kind = getattr(prec, "name", None)
+    if kind is None or not isinstance(kind, str):
+        raise Unsupported("PSyIR precision " + str(prec)[:60])
+    return ty, kind.lower(), rank
+
+
+def itemise_psyir(names, exprs, md):
+    '''Items of KernCallArgList: names = .arglist (texts), exprs =
+    .psyir_arglist (the PSyIR expressions actually passed); roles from the
+    names, type/kind/rank from the PSyIR expressions.'''
+    if len(names) != len(exprs):
+        raise Unsupported(f"arglist has {len(names)} names but "
+                          f"{len(exprs)} PSyIR expressions")
+    namer = Namer(md, "call")
+    items = []
+    for text, expr in zip(names, exprs):
+        low = text.lower().replace(" ", "")
+        name = low if "%" in low else re.sub(r"\(.*\)$", "", low)
+        role = classify(name, namer)
+        ty, kind, rank = _describe(expr)
+        items.append(_item(role, ty, kind, rank, "na"))
+    return items
